@@ -10,6 +10,7 @@ import sys
 
 from sa import cfg as cfgmod
 from sa import model
+from sa import norm
 from sa.model import AnalysisError
 from sa.rules import c01
 
@@ -266,6 +267,49 @@ class Analyzer:
                     n.ctx, ast.Load):
                 self._subscript(fi, n, hs, out)
 
+    def _production_index_verdict(self, fi, pname):
+        """Abstractly run the grammar action once per alternative of its
+        rule (p as long as that alternative): the set of alternative
+        lengths for which it indexes past the end; None if the action is
+        outside the modelled fragment."""
+        from sa import absint
+        cache = self.__dict__.setdefault('_piv', {})
+        if fi.key in cache:
+            return cache[fi.key]
+        doc = ast.get_docstring(fi.node, clean=False)
+        verdict = None
+        if doc and ':' in doc and fi.name not in ('p_binary', 'p_unary'):
+            verdict = set()
+            lists = {'arglist', 'incomplete_arglist', 'named_arglist',
+                     'args'}
+            for alt in doc.split(':', 1)[1].split('|'):
+                syms = alt.split()
+                if '%prec' in syms:
+                    syms = syms[:syms.index('%prec')]
+                vals = [None] + [[] if x in lists else absint.Sym(x)
+                                 for x in syms]
+
+                def oracle(name, args, kwargs):
+                    if name.startswith('yaql.language.expressions.') or \
+                            name.startswith('yaql.language.expressions:'):
+                        return (absint.Sym('node'),)
+                    return None
+                it = absint.Interp(self.repo, fi.module, oracle,
+                                   follow=False)
+                args = {pname: vals}
+                for q in fi.params():
+                    if q != pname:
+                        args[q] = absint.Obj(q)
+                try:
+                    res = it.run(fi.node, args)
+                except absint.Unsupported:
+                    verdict = None
+                    break
+                if res[0] == 'raise' and 'IndexError' in str(res[1]):
+                    verdict.add(len(syms))
+        cache[fi.key] = verdict
+        return verdict
+
     def _subscript(self, fi, n, hs, out):
         role = self.scope.get(fi.key, (None, None))[1]
         if isinstance(n.slice, ast.Slice):
@@ -277,7 +321,13 @@ class Analyzer:
                 n.slice, ast.Constant) and isinstance(n.slice.value, int):
             k = n.slice.value
             lim = production_min_len(fi)
-            if lim is None or k <= lim or _under_len_test(n, root):
+            if lim is None or k <= lim:
+                return
+            verdict = self._production_index_verdict(fi, root)
+            if verdict is not None:
+                if not verdict:
+                    return      # no alternative indexes past its symbols
+            elif _under_len_test(n, root, fi.node):
                 return
             cls = 'builtins.IndexError'
             self.partial_sites.append((fi, n, (cls,), None))
@@ -325,7 +375,28 @@ class Analyzer:
         d = repo.resolve(fi.module, f, model.scope_locals(fi))
         classes = None
         key = None
-        if d in PARTIAL_CALLS:
+        if d is None and isinstance(f, ast.Name):
+            # a local bound once to a choice of converters:
+            # `conv = float if '.' in text else int; conv(text)`
+            v = norm.single_assignments(fi.node).get(f.id)
+            leaves = []
+            todo = [v] if v is not None else []
+            while todo:
+                x = todo.pop()
+                if isinstance(x, ast.IfExp):
+                    todo += [x.body, x.orelse]
+                elif isinstance(x, (ast.Name, ast.Attribute)):
+                    leaves.append(repo.resolve(fi.module, x,
+                                               model.scope_locals(fi)))
+            hits = [x for x in leaves if x in PARTIAL_CALLS]
+            if hits:
+                classes = tuple(sorted({c for h in hits
+                                        for c in PARTIAL_CALLS[h]}))
+                key = hits[0]
+                d = hits[0]
+        if classes is not None:
+            pass
+        elif d in PARTIAL_CALLS:
             classes = PARTIAL_CALLS[d]
             key = d
         elif d == 'builtins.getattr' and len(call.args) == 2:
@@ -418,18 +489,17 @@ def _root(e):
     return (e.id if isinstance(e, ast.Name) else None), chain
 
 
-def _under_len_test(node, root):
-    n = node
-    while n is not None:
-        p = getattr(n, '_parent', None)
-        if isinstance(p, (ast.If, ast.IfExp)):
-            for c in ast.walk(p.test):
-                if isinstance(c, ast.Call) and isinstance(
-                        c.func, ast.Name) and c.func.id == 'len' and \
-                        c.args and isinstance(c.args[0], ast.Name) and \
-                        c.args[0].id == root:
-                    return True
-        n = p
+def _under_len_test(node, root, fn_node):
+    """Some condition that holds at `node` (if/else, early exit,
+    conditional expression; boolean/arithmetic locals substituted) tests
+    len(<root>)."""
+    for e, pol in norm.guards(node, fn_node):
+        for c in ast.walk(e):
+            if isinstance(c, ast.Call) and isinstance(
+                    c.func, ast.Name) and c.func.id == 'len' and \
+                    c.args and isinstance(c.args[0], ast.Name) and \
+                    c.args[0].id == root:
+                return True
     return False
 
 
